@@ -169,3 +169,30 @@ package exporter
 //@   loop 1 invariant cnt: 0 <= $i && $i <= len(theSet(set).records) && !ep.templateMutex.held
 //@   loop 1 invariant ids: forall j in [0, $i): recId(theSet(set).records[j]) == setID
 //@   loop 1 decreases len(theSet(set).records) - $i
+
+// ---------------------------------------------------------------------------
+// Encrypted transports (C18): the configuration handed to crypto/tls and pion/dtls, and no plaintext fallback
+// ---------------------------------------------------------------------------
+
+//@ // verifies: a client configuration that authenticates the server against exactly the configured CA data
+//@ pure tlsVerifies(c *tls.Config, ca []byte, name string) bool = c != nil && c.RootCAs != nil && c.RootCAs.filled && c.RootCAs.pem == ca
+//@     && !c.InsecureSkipVerify && c.MinVersion >= 771 && c.ServerName == name
+
+//@ func createClientConfig(config) (r, err)
+//@   requires cfg: config != nil
+//@   ensures  ok:  err == nil ==> fresh(r) && tlsVerifies(r, config.CAData, config.ServerName)
+//@   ensures  nocert: err == nil && isnil(config.CertData) ==> len(r.Certificates) == 0
+//@   ensures  cert:   err == nil && !isnil(config.CertData) ==> len(r.Certificates) == 1
+//@   replay tlscfg
+
+//@ func InitExportingProcess(input) (r, err)
+//@   ensures  tls:   err == nil && input.TLSClientConfig != nil && input.CollectorProtocol == "tcp" ==>
+//@                   r != nil && $lastDialKind == 1 && is(r.connToCollector, *tls.Conn) && r.connToCollector.(*tls.Conn) == $lastTLSConn && tlsVerifies($lastTLSConfig, input.TLSClientConfig.CAData, input.TLSClientConfig.ServerName)
+//@   ensures  dtls:  err == nil && input.TLSClientConfig != nil && input.CollectorProtocol == "udp" ==>
+//@                   r != nil && $lastDialKind == 2 && is(r.connToCollector, *dtls.Conn) && r.connToCollector.(*dtls.Conn) == $lastDTLSConn && $lastDTLSConfig != nil && $lastDTLSConfig.RootCAs != nil && $lastDTLSConfig.RootCAs.filled
+//@                   && $lastDTLSConfig.RootCAs.pem == input.TLSClientConfig.CAData && !$lastDTLSConfig.InsecureSkipVerify
+//@                   && $lastDTLSConfig.ExtendedMasterSecret == dtls.RequireExtendedMasterSecret && $lastDTLSConfig.ServerName == input.TLSClientConfig.ServerName
+//@   ensures  plain: err == nil && input.TLSClientConfig == nil ==> r != nil && $lastDialKind == 0 && r.connToCollector == $lastConn
+//@   callpre net.Dial noplain: input.TLSClientConfig == nil
+//@   replay tlscfg
+//@   modifies *
